@@ -130,10 +130,27 @@ _LOOP = None
 _APP = None
 
 
+class LoopError(Exception):
+    """an exception reached the event loop (e.g. raised by a key handler of the real code)"""
+
+
+_ERRORS = []
+
+
+def _loop_exc_handler(loop, context):
+    _ERRORS.append((type(context.get("exception")).__name__ + ": " + str(context.get("exception") or context.get("message")))[:200])
+
+
+def check_errors():
+    if _ERRORS:
+        raise LoopError(_ERRORS[0])
+
+
 def get_loop():
     global _LOOP
     if _LOOP is None or _LOOP.is_closed():
         _LOOP = asyncio.new_event_loop()
+        _LOOP.set_exception_handler(_loop_exc_handler)
     return _LOOP
 
 
@@ -412,7 +429,7 @@ async def settle(task, n=8):
 
 async def finish(task):
     try:
-        return await asyncio.wait_for(task, 10)
+        return await asyncio.wait_for(task, 3)
     except asyncio.TimeoutError:
         task.cancel()
         raise
@@ -420,6 +437,22 @@ async def finish(task):
 
 async def sess_trace(case):
     """run the case on a real PromptSession: (lines, events)"""
+    holder = [None]
+    del _ERRORS[:]
+    try:
+        return await sess_trace1(case, holder)
+    finally:
+        t = holder[0]
+        if t is not None and not t.done():
+            t.cancel()
+            try:
+                await asyncio.wait_for(t, 2)
+            except BaseException:
+                pass
+        del _ERRORS[:]
+
+
+async def sess_trace1(case, holder):
     lines, events = [], []
     with create_pipe_input() as inp:
         h = InMemoryHistory(list(case["hist"]))
@@ -437,8 +470,11 @@ async def sess_trace(case):
         for p in case["prompts"]:
             before = sn()
             if p.get("accept_default"):
-                task = asyncio.ensure_future(session.prompt_async(default=p["default"], accept_default=True))
+                task = asyncio.ensure_future(session.prompt_async(default=p["default"], accept_default=True,
+                                                                   set_exception_handler=False))
+                holder[0] = task
                 await settle(task, 12)
+                check_errors()
                 if task.done() or app.is_done:
                     res = await finish(task)
                     after = sn()
@@ -456,8 +492,10 @@ async def sess_trace(case):
                     except Abort:
                         pass
                 continue
-            task = asyncio.ensure_future(session.prompt_async(default=p["default"]))
+            task = asyncio.ensure_future(session.prompt_async(default=p["default"], set_exception_handler=False))
+            holder[0] = task
             await settle(task, 10)
+            check_errors()
             s = sn()
             lines.append(snap_line(s))
             events.append({"ev": "start", "after": s, "default": p["default"]})
@@ -469,6 +507,7 @@ async def sess_trace(case):
                 before = sn()
                 inp.send_text(key_bytes(key))
                 await settle(task, 10)
+                check_errors()
                 if key[0] == "enter" and (task.done() or app.is_done):
                     res = await finish(task)
                     done = True
@@ -504,7 +543,19 @@ def run_real(case):
     """trace of the real code for this case (memoised for the impl_lines / oracle pair)"""
     key = json.dumps(case, sort_keys=True)
     if _CACHE["key"] == key:
+        if isinstance(_CACHE["val"], BaseException):
+            raise _CACHE["val"]
         return _CACHE["val"]
+    try:
+        val = run_real1(case)
+    except Exception as e:
+        _CACHE["key"], _CACHE["val"] = key, e
+        raise
+    _CACHE["key"], _CACHE["val"] = key, val
+    return val
+
+
+def run_real1(case):
     loop = get_loop()
     asyncio.set_event_loop(loop)
     if case["kind"] == "buf":
@@ -514,11 +565,8 @@ def run_real(case):
             with set_app(app):
                 return await buf_trace(case, app)
 
-        val = loop.run_until_complete(go())
-    else:
-        val = loop.run_until_complete(sess_trace(case))
-    _CACHE["key"], _CACHE["val"] = key, val
-    return val
+        return loop.run_until_complete(go())
+    return loop.run_until_complete(asyncio.wait_for(sess_trace(case), 12))
 
 
 def model_lines(case):
@@ -553,7 +601,7 @@ def exhaustive_cases(maxn):
                                    "val": [1, "x", 1, 1], "ops": pre + [o1, o2]}
 
 
-RT = ["", "a", "ab", "b", "a\nb", "ab\nc", "abc", "ba", "é", "世a", "x", "ax"]
+RT = ["", "a", "ab", "b", "a\nb", "ab\nc", "abc", "ba", "é", "世a", "x", "ax", "a b", " a", "b "]
 
 
 def rand_text(rng):
@@ -582,7 +630,7 @@ def rand_buf_op(rng):
     if k < 53:
         return ["endhist"]
     if k < 61:
-        return ["ins", rng.choice(["a", "b", "x", "ab", "\n", "é"])]
+        return ["ins", rng.choice(["a", "b", "x", "ab", "\n", "é", " "])]
     if k < 66:
         return ["delb", rng.choice([1, 1, 2, 5])]
     if k < 69:
@@ -656,7 +704,7 @@ def rand_key(rng):
     if k < 68:
         return ["endhist"]
     if k < 82:
-        return ["char", rng.choice(["a", "b", "x", "c", "é"])]
+        return ["char", rng.choice(["a", "b", "x", "c", "é", " "])]
     if k < 87:
         return ["backspace"]
     if k < 95:
@@ -747,18 +795,52 @@ def wf(V, site, st, desc):
     return True
 
 
-def check_nav(V, site, name, before, after, desc):
+class PrefixTracker:
+    """What the user has typed as search prefix, tracked from the outside: the text before the
+    cursor at the first up/down/page step after the last change of the text (None = no search
+    running / prefix search off).  Deliberately ignores Buffer.history_search_text."""
+
+    def __init__(self):
+        self.typed = None
+
+    def text_changed(self):
+        self.typed = None
+
+    def history_step(self, before):
+        """a step that really goes to the history loops (not a cursor move inside the text)"""
+        if not before["ehs"]:
+            self.typed = None
+        elif self.typed is None:
+            self.typed = before["text"][:before["cur"]]
+        return self.typed
+
+
+def takes_history_branch(name, before):
+    """auto_up / auto_down move inside a multi-line text when they can"""
+    if name in ("aup", "up", "c-p"):
+        return "\n" not in before["text"][:before["cur"]]
+    if name in ("adown", "down", "c-n"):
+        return "\n" not in before["text"][before["cur"]:]
+    return name in ("hb", "hf", "prevhist", "nexthist", "endhist")
+
+
+def check_nav(V, site, name, before, after, desc, tracker):
     """an up/down/page/goto/cursor step: stored history, working copies untouched"""
     if after["storage"] != before["storage"] or after["hist"] != before["hist"]:
         V.add(site, "navigation changed the stored history",
               f"{desc}: {before['storage']!r}/{before['hist']!r} -> {after['storage']!r}/{after['hist']!r}")
     if after["work"] != before["work"]:
         V.add(site, "navigation changed a working copy", f"{desc}: {before['work']!r} -> {after['work']!r}")
-    if name in STEP_NAV and before["ehs"] and after["idx"] != before["idx"]:
-        p = eff_prefix(before)
-        if after["search"] != p or not after["text"].startswith(p):
-            V.add(site, "prefix search reached an entry without the prefix",
-                  f"{desc}: prefix={p!r} search={after['search']!r} reached={after['text']!r}")
+    if takes_history_branch(name, before):
+        typed = tracker.history_step(before)
+        if name != "endhist" and after["idx"] != before["idx"]:
+            if typed is not None and not after["text"].startswith(typed):
+                V.add(site, "prefix search reached an entry without the prefix",
+                      f"{desc}: typed prefix={typed!r} (Buffer.history_search_text={after['search']!r}) "
+                      f"reached={after['text']!r}")
+        if after["search"] != typed:
+            V.add(site, "remembered search text is not the typed prefix",
+                  f"{desc}: typed prefix={typed!r} Buffer.history_search_text={after['search']!r}")
 
 
 def check_edit(V, site, before, after, desc):
@@ -834,6 +916,7 @@ def buf_oracle(case, trace):
     V = Viol()
     spec = case["val"]
     clean_default = None      # text given to the last reset, while nothing else has happened since
+    tracker = PrefixTracker()
     for i in range(1, len(trace)):
         op, before, after, out = trace[i]
         k = op[0]
@@ -846,11 +929,13 @@ def buf_oracle(case, trace):
         if not wf(V, site, after, desc):
             break
         if k in NAV_OPS:
-            check_nav(V, site, k, before, after, desc)
+            check_nav(V, site, k, before, after, desc, tracker)
             if k == "validate" and verdict(spec, before["text"]) is not None and out == "b1":
                 V.add(site, "validate() true although the validator fails", desc)
         elif k in EDIT_OPS:
             check_edit(V, site, before, after, desc)
+            if after["text"] != before["text"]:
+                tracker.text_changed()
         elif k == "startload":
             if after["storage"] != before["storage"] or after["work"] != before["work"] and not case.get("gated", True) is False:
                 pass
@@ -869,6 +954,8 @@ def buf_oracle(case, trace):
                       f"{desc}: {before['work']!r}@{before['idx']} -> {after['work']!r}@{after['idx']}")
         elif k == "accept":
             check_accept(V, site, spec, before, after, out, bool(op[1]), desc)
+            if out.startswith("acc:") and not op[1]:
+                tracker.text_changed()
         elif k == "append":
             text = before["text"]
             newest = before["storage"][-1] if before["storage"] else None
@@ -878,6 +965,7 @@ def buf_oracle(case, trace):
             if after["work"] != before["work"]:
                 V.add(site, "append_to_history changed a working copy", desc)
         elif k == "reset":
+            tracker.text_changed()
             if after["storage"] != before["storage"] or after["hist"] != before["hist"]:
                 V.add(site, "reset changed the stored history", desc)
         # round trips
@@ -902,6 +990,7 @@ def sess_oracle(case, events):
     V = Viol()
     spec = case["val"]
     last_storage = list(case["hist"])
+    tracker = PrefixTracker()
     for n, e in enumerate(events):
         ev = e["ev"]
         desc = f"event {n} {ev} {e.get('key', '')}"
@@ -913,13 +1002,16 @@ def sess_oracle(case, events):
                 V.add("PromptSession.prompt", "stored history changed between prompts",
                       f"{desc}: {last_storage!r} -> {after['storage']!r}")
             check_clean(V, "PromptSession.prompt", after, e["default"], desc)
+            tracker.text_changed()
         elif ev == "key":
             name = e["key"][0]
             before = e["before"]
             if name in KEY_NAV:
-                check_nav(V, "key " + name, name, before, after, desc)
+                check_nav(V, "key " + name, name, before, after, desc, tracker)
             elif name in KEY_EDIT:
                 check_edit(V, "key " + name, before, after, desc)
+                if after["text"] != before["text"]:
+                    tracker.text_changed()
             # round trip on consecutive prevhist k / nexthist k
             if name in ("prevhist", "nexthist") and n + 1 < len(events) and events[n + 1]["ev"] == "key":
                 k2 = events[n + 1]["key"]
